@@ -18,13 +18,16 @@ RULE = ("every DAG(n) n<=4 with every disjoint (L,S) (3^n assignments) and every
         "size stream: latent dead-end shapes with 5-9 nodes (a latent 3/4/5-clique, DAG-oriented or bidirected, feeding x or a latent "
         "hub, next to the short inducing path) under every rotation of the integer labels, 6 (40) random relabellings and "
         "alternating insertion orders. argument kinds: L,S as frozensets on every DAG(n<=3) x (L,S); one node labelled '' or () "
-        "(falsy) - label 0 is a node of every case")
+        "(falsy) - label 0 is a node of every case. boundary stream: the empty graph (fresh / emptied in place by remove_nodes_from with "
+        "a duplicate in the bulk argument), isolated nodes only (n<=5) with L or S = all nodes, L and S omitted instead of explicit "
+        "empty sets, a node dropped in place after a warm-up, and x == y / absent x or y (ValueError as the code documents). "
+        "argument integrity on every case: graph snapshot and the L, S objects (the same two objects for all calls) unchanged")
 EXHAUSTIVE = {"quick": "DAG(n) x all disjoint (L,S) x all ordered pairs, n<=4 (n<=3 under all 7 label families); ADMG(n) n<=3 likewise",
               "thorough": "same as quick, plus every DAG(5) with 6 seeded (L,S)"}
 TRUSTED = ["networkx ancestors / predecessors / all_neighbors taken at face value",
            "validity of a returned path = membership in the model's list of all inducing paths of that pair"]
 ASSUMPTIONS = ["default edge-type names", "graph passed as pywhy_graphs.ADMG (what dag_to_mag's own tests pass)",
-               "x != y both nodes of the graph; directed layer acyclic"]
+               "judged queries: x != y both nodes of the graph (x == y / absent nodes only checked to raise ValueError); directed layer acyclic"]
 SPOT_N = 15
 
 
@@ -77,6 +80,13 @@ def random_edit(rng, g, bidir=True):
 
 def apply_edits(A, lab, g0, g):
     """turn the object built from g0 into g IN PLACE (removals first, so a reversal is remove + add)"""
+    gone = [v for v in g0["V"] if v not in g["V"]]
+    if gone:
+        A.remove_nodes_from([lab(v) for v in gone] + [lab(gone[0])])      # a duplicate inside the bulk argument is legal
+        g0 = {"V": [v for v in g0["V"] if v in g["V"]], **{k: [e for e in g0[k] if e[0] in g["V"] and e[1] in g["V"]] for k in "DBUC"}}
+    for v in g["V"]:
+        if v not in g0["V"]:
+            A.add_node(lab(v))
     for k, name, sym in (("D", "directed", False), ("B", "bidirected", True), ("U", "undirected", True)):
         norm = (lambda e: tuple(sorted(e))) if sym else tuple
         old, new = {norm(e) for e in g0[k]}, {norm(e) for e in g[k]}
@@ -194,8 +204,35 @@ def build(case, g):
     return A, lab, inv
 
 
+def boundary_cases(tier, rng):
+    """BOUNDARY: the empty graph (fresh, and emptied in place with remove_nodes_from), single nodes, isolated nodes only, L or S
+    = all nodes (also in the exhaustive stream), L / S omitted (None) instead of an explicit empty set, and the malformed
+    queries for which the code documents ValueError: x == y, x or y not a node"""
+    empty = gr.G([])
+    yield mk("empty", empty, [], [], True)
+    yield dict(mk("empty-none", empty, [], [], True), _none=True, bad=[[0, 1], [0, 0]])
+    for n in (1, 2, 3):
+        for g0 in gr.enum_dag(n):
+            yield dict(mk("emptied%d" % n, empty, [], [], True), g0=g0, bad=[[0, 1]])
+    for n in (1, 2, 3, 4, 5):
+        iso = gr.G(range(n))
+        for L, S in ([([], [])] + ([(list(range(n)), []), ([], list(range(n))), ([0], list(range(1, n)))])):
+            yield dict(mk("isolated%d" % n, iso, L, S, True), bad=[[0, 0], [0, n], [n + 1, 0]])
+        yield dict(mk("isolated%d-none" % n, iso, [], [], True), _none=True)
+    for n in (2, 3):
+        for g in gr.enum_dag(n):
+            yield dict(mk("none%d" % n, g, [], [], True), _none=True, bad=[[0, 0], [0, n], [n, 0], [n, n + 1]])
+            if g["D"]:   # drop one node in place after a warm-up
+                v = rng.choice(g["V"])
+                h = {"V": [w for w in g["V"] if w != v], **{k: [e for e in g[k] if v not in e] for k in "DBUC"}}
+                c = mk("dropnode%d" % n, h, [], [], True)
+                c["g0"] = g
+                yield c
+
+
 def gen_cases(tier, rng):
     quick = tier == "quick"
+    yield from boundary_cases(tier, rng)
     yield from repeat_cases(tier, rng)
     yield from size_cases(tier, rng)
     yield from argkind_cases(tier, rng)
@@ -259,7 +296,7 @@ def run_impl(case):
     from pywhy_graphs.algorithms import generic
     if case.get("g0") is not None:
         A, lab, inv = build(case, case["g0"])
-        for x, y in case["qs"]:                       # warm-up on G0, results discarded
+        for x, y in opairs(case["g0"]["V"]):          # warm-up on G0 (all its ordered pairs), results discarded
             try:
                 generic.inducing_path(A, lab(x), lab(y), {lab(v) for v in case["L"]}, {lab(v) for v in case["S"]})
             except Exception:  # noqa
@@ -273,29 +310,46 @@ def run_impl(case):
     else:
         A, lab, inv = build(case, case["g"])
     mkset = frozenset if case.get("_argkind") == "frozenset" else set
+    Lset, Sset = mkset(lab(v) for v in case["L"]), mkset(lab(v) for v in case["S"])      # the SAME objects for every call
+    Lcopy, Scopy = set(Lset), set(Sset)
+    none = bool(case.get("_none")) and not case["L"] and not case["S"]
+    before = gr.snapshot(A)
     ind = []
     for x, y in case["qs"]:
         try:
-            ok, path = generic.inducing_path(A, lab(x), lab(y), mkset(lab(v) for v in case["L"]), mkset(lab(v) for v in case["S"]))
+            ok, path = generic.inducing_path(A, lab(x), lab(y)) if none else generic.inducing_path(A, lab(x), lab(y), Lset, Sset)
             ind.append([int(bool(ok)), [inv(v) for v in path]])
         except Exception as e:  # noqa
             ind.append("exc:" + type(e).__name__)
+    bad = []
+    for x, y in case.get("bad", []):
+        try:
+            bad.append(repr(generic.inducing_path(A, lab(x), lab(y), Lset, Sset)))
+        except Exception as e:  # noqa
+            bad.append("exc:" + type(e).__name__)
     mag = None
     if case["dag"]:
         try:
-            M = generic.dag_to_mag(A, mkset(lab(v) for v in case["L"]), mkset(lab(v) for v in case["S"]))
+            M = generic.dag_to_mag(A) if none else generic.dag_to_mag(A, Lset, Sset)
             try:
                 mag = gr.from_mixed(M, inv)
             except KeyError:
                 mag = "foreign-node-labels"
         except Exception as e:  # noqa
             mag = "exc:" + type(e).__name__
-    return {"ind": ind, "mag": mag}
+    out = {"ind": ind, "mag": mag, "bad": bad}
+    if gr.snapshot(A) != before or set(Lset) != Lcopy or set(Sset) != Scopy:
+        out["mutated"] = True
+    return out
 
 
 def compare(case, impl, model):
     if "exc" in impl:
         return "exception"
+    if impl.get("mutated"):
+        return "argument-mutated"
+    if any(r != "exc:ValueError" for r in impl.get("bad", [])):
+        return "malformed-query-not-ValueError"
     if model["oracle"] is not None and model["oracle"] != [1, 1]:
         return "model-vs-oracle"
     for r, m, allp in zip(impl["ind"], model["ind"], model["allp"]):
